@@ -205,7 +205,7 @@ pub fn generate(seed: u64, fault_free: bool) -> AliasOut {
             let structs = g.model.structs.clone();
             move |sid: usize| structs[sid].fields.iter().map(|f| f.0.clone()).collect::<Vec<_>>()
         };
-        let choice = g.rng.weighted(&[8, 6, 14, 14, 6, 5, 4, 4, 4, 5, 4, 3, 3, 3]);
+        let choice = g.rng.weighted(&[8, 6, 14, 14, 6, 5, 4, 4, 4, 5, 4, 3, 3, 3, 4]);
         let r = match choice {
             0 => {
                 // declare with an alias
@@ -605,6 +605,26 @@ pub fn generate(seed: u64, fault_free: bool) -> AliasOut {
                     Ex::For(vec![Clause::Each(lv("e"), var(&src))], Box::new(ForBody::Do(body))),
                     vec![],
                 )
+            }
+            14 => {
+                // "calling any function on a value bound to a variable leaves that variable's value
+                // unchanged": any global builtin on one or two data variables, implementation only
+                // (value or error), after which every variable must still hold the model's value
+                let names = crate::gen_fault::global_names();
+                let f = g.rng.pick(names).clone();
+                if crate::gen_fault::SIZE_SENSITIVE.contains(&f.as_str()) {
+                    continue;
+                }
+                let n = 1 + g.rng.below(2);
+                let args: Vec<Ex> = (0..n).map(|_| var(&g.rng.pick(&vars).0.clone())).collect();
+                let c = Ex::Call(Box::new(var(&f)), args);
+                let e = if g.rng.chance(1, 2) {
+                    Ex::Try(Box::new(c), Box::new(lv("err")), Box::new(Ex::Null))
+                } else {
+                    c
+                };
+                g.push_outcome_only("call-builtin", e, vec![], false);
+                Ok(Ok(V::Null))
             }
             _ => {
                 // party trick: (a and b) op= e
